@@ -44,7 +44,7 @@ def jobserver_absent_edge(f):
         return None if v is None else (v == pol)
 
     def ok(b, i, s):
-        for key, pol, atom in f.edge_facts(b, i):
+        for key, pol, atom in f.edge_facts(b, i, all=True):
             v = value(atom)
             if v is not None:
                 return v == pol
@@ -558,7 +558,7 @@ def run(ctx):
     okq = bool(hf)
     for b, i, s2 in hf:
         okq = okq and wc_.find_path(None, lambda x: x['k'] == 'call' and x.get('name') == 'SubprocessSet::DoWork', from_succ=s2,
-                                    init_facts=frozenset((k, pol) for k, pol, atom in wc_.edge_facts(b, i))) is None
+                                    init_facts=frozenset((k, pol) for k, pol, atom in wc_.edge_facts(b, i, all=True))) is None
     ctx.check('C06.L1', okq, wc_.name, 'wait:blocks-with-queued-completion', wc_.loc,
               'with a finished command already queued the runner does not call DoWork() (which may block forever)')
     ctx.floor('C06.L1', 11)
